@@ -49,6 +49,11 @@ def _full_overwrite(self, stmts, i, st):
     return name
 
 
+def _keep_identity(new, old):
+    """a buffer whose contents are declared dead keeps its storage identity (it is still the same array / view)"""
+    new.mid, new.whole, new.view_of, new.rowview = old.mid, old.whole, old.view_of, old.rowview
+
+
 def exec_block(self, stmts, st, frame):
     for i, s in enumerate(stmts):
         if st is None:
@@ -59,6 +64,7 @@ def exec_block(self, stmts, st, frame):
                 arr = st.env[name]
                 st.env[name] = Num(zero=True, shape=arr.shape, cplx=arr.cplx, taint=frozenset())
                 st.env[name].q = 'any'
+                _keep_identity(st.env[name], arr)
         st = self.exec_stmt(s, st, frame)
     return st
 
@@ -255,6 +261,17 @@ def bind(self, t, v, st, node):
 def store_subscript(self, t, v, st, node):
     base = self.eval(t.value, st)
     idx = self.eval(t.slice, st)
+    rv = getattr(base, 'rowview', None) if isinstance(base, Num) else None
+    from .interp_expr import value_key
+    if rv is not None and isinstance(t.value, ast.Name) and not isinstance(idx, Tup):
+        mname, sl, deps = rv
+        M = st.env.get(mname)
+        if isinstance(M, Num) and M.mid is not None and M.mid == base.mid and all(value_key(st.env.get(k_)) == i_ for k_, i_ in deps.items()):
+            # row[j] = v where row is the view M[e]: the same store written as M[e, j] = v
+            t2 = ast.Subscript(value=ast.Name(id=mname, ctx=ast.Load()), slice=ast.Tuple(elts=[sl, t.slice], ctx=ast.Load()), ctx=ast.Store())
+            ast.copy_location(t2, t)
+            ast.fix_missing_locations(t2)
+            return self.store_subscript(t2, v, st, node)
     if isinstance(base, Num) and base.shape is not None and len(base.shape) == 2:
         _store_2d(self, t, base, idx, v, st, node)
     if isinstance(base, Num):
@@ -546,6 +563,9 @@ def _refine_equal(self, test, st_true, st_false):
         return None
     d = il.a - ir.a
     syms = [s_ for s_ in d.t if s_ in Aff.BOUNDS]
+    if not syms and self.d4:
+        # no loop symbol involved (a peeled iteration: `k == 0` with k = Q-1): the equality fixes a size symbol in that arm
+        syms = [s_ for s_ in sorted(d.t) if abs(d.t[s_]) == 1][:1]
     if len(syms) != 1:
         return None
     sym = syms[0]
@@ -648,9 +668,13 @@ def iter_elem(self, it, node, loopnode=None):
             Aff.SYM_MIN[sym] = 0
             if step == 1 and lo is not None:
                 Aff.BOUNDS[sym] = (lo, hi)
+            elif step == -1 and lo is not None and hi is not None:
+                Aff.BOUNDS[sym] = (hi + 1, lo + 1)      # range(lo, hi, -1) visits hi+1 .. lo
         n = None
         if lo is not None and hi is not None and step == 1:
             n = hi - lo
+        elif lo is not None and hi is not None and step == -1:
+            n = lo - hi
         t = it.taint if self.loop_taint else frozenset()
         return IntV(Aff.sym(sym) if sym else None, t), n
     if isinstance(it, Opaque) and it.what == 'enumerate':
@@ -708,7 +732,8 @@ def loop_fix(self, s, st, frame, head):
     _pass = -1
     while _pass + 1 < npasses:
         _pass += 1
-        frame.loops.append({'breaks': [], 'conts': [], 'certain': False})
+        frame.loops.append({'breaks': [], 'conts': [], 'certain': False, 'node': s,
+                            'len0': {k_: len(v_.items) for k_, v_ in st.env.items() if isinstance(v_, Tup) and v_.mutable}})
         body_in = head(cur.fork(), _pass) if _takes_pass(head) else head(cur.fork())
         if body_in is None:
             frame.loops.pop()
@@ -792,6 +817,8 @@ def s_For(self, s, st, frame):
     items = None
     if isinstance(it, Const) and isinstance(it.v, (list, tuple)) and len(it.v) <= 8:
         items = [x if isinstance(x, Val) else Const(x, it.taint) for x in it.v]
+    elif isinstance(it, Const) and isinstance(it.v, dict) and len(it.v) <= 8:
+        items = [Const(k_, it.taint) for k_ in it.v.keys()]        # iterating a dict visits its keys
     elif isinstance(it, Tup) and len(it.items) <= 8 and not frame.loops:
         items = list(it.items)
     elif getattr(self, 'unroll', False) and isinstance(it, Opaque) and it.what == 'range':
@@ -821,12 +848,15 @@ def s_For(self, s, st, frame):
         arr = st.env[name]
         st.env[name] = Num(zero=True, shape=arr.shape, cplx=arr.cplx, taint=frozenset())
         st.env[name].q = 'any'
+        _keep_identity(st.env[name], arr)
 
     _el, _ln = self.iter_elem(it, s.iter, s)
     frame.loopn.append(_ln)
 
     def head(state, npass=1):
         el, _n = self.iter_elem(it, s.iter, s)
+        if isinstance(it, Opaque) and it.what == 'range' and it.args[2] == 1 and it.args[0] is not None:
+            frame.loops[-1]['range_lo'] = it.args[0]          # position of an item appended once per iteration: k - lo
         if npass in ((0, 1) if self.d4 else (0,)) and isinstance(it, Opaque) and it.what == 'range' and it.args[0] is not None and isinstance(el, IntV) \
                 and not frame.loops[:-1] and it.args[2] in (1, -1):
             # peeled first two iterations of an outermost loop: the loop variable has its first / second value
